@@ -223,7 +223,13 @@ impl InferShapes for Where {
                 })
                 .collect();
             if let Some(vals) = vals {
-                return Ok([SymTensor::from_vec(vals)].into());
+                // The result is a scalar only if all inputs are scalars.
+                let all_scalar = [cond, x, y].iter().all(|t| t.as_scalar().is_some());
+                let result = match (all_scalar, vals.as_slice()) {
+                    (true, [val]) => SymTensor::from_scalar(val.clone()),
+                    _ => SymTensor::from_vec(vals),
+                };
+                return Ok([result].into());
             }
         }
 
